@@ -38,7 +38,7 @@ func (assumeNormal) Compare(s1, s2 *Sample) Comparison {
 	if err != nil {
 		// The t-test failed. Report as if there's no
 		// significant difference, along with the error.
-		return Comparison{P: 1, N1: len(s1.Values), N2: len(s2.Values), Warnings: []error{err}}
+		return Comparison{P: 1, N1: len(s1.Values), N2: len(s2.Values), Alpha: s1.Thresholds.CompareAlpha, Warnings: []error{err}}
 	}
-	return Comparison{P: t.P, N1: len(s1.Values), N2: len(s2.Values)}
+	return Comparison{P: t.P, N1: len(s1.Values), N2: len(s2.Values), Alpha: s1.Thresholds.CompareAlpha}
 }
